@@ -10,6 +10,8 @@ type Mutant struct {
 	File   string // module-relative file
 	Old    string // text that must be present (otherwise the mutant is skipped)
 	New    string
+	Old2   string // optional second replacement in the same file
+	New2   string
 	Expect string // substring of the obligation key that must be reported as violated
 }
 
